@@ -11,10 +11,13 @@ of any sizes, space notifications, the client going away, the start of forwardin
 writes, in any order. No bound on sizes or lengths. For identity (Content-Length) bodies the statements are about the client's
 octets themselves. For chunked bodies they are about the octets the decoder model (the C24 model of TeChunkedParser::parse(), called
 with the pipe's free space as payload capacity) hands over: `produced` is the concatenation of its outputs, and the production ends
-successfully only when a parse() call returned true; that those outputs are the body the client encoded is C24's subject.
+successfully only when a parse() call returned true. `chunked_request_body_is_exact` connects this calling pattern (one bounded
+call per event, possibly with no space at all, new octets arriving while the decoder waits for space) to the reference run of the
+C24 theorems and to the grammar: for every valid chunked encoding the produced octets are exactly the encoded body.
 Partial: the model cannot exhibit Comm scheduling, timeouts, adaptation, the body size policy, or retries.
 -/
 import SquidModel.Relay.RequestGrammar
+import SquidModel.Relay.RequestChunked
 
 namespace SquidModel.C02
 open SquidModel SquidModel.Relay.Request SquidModel.Chunked.Grammar
@@ -115,6 +118,31 @@ theorem chunked_upstream_wire_is_in_grammar (cfr : CFr) (relaxed : Bool) (pipeMa
   have h := inv_after cfr relaxed pipeMax evs
   have hne := pieces_nonempty_run (s := Sys.init cfr relaxed pipeMax) (by simp [Sys.init]) evs
   exact upWire_encodes _ (h.last_ok hl).2.2 hl (fun p hp => ⟨hne p hp, hsz p hp⟩)
+
+/-- **Chunked requests are decoded exactly.** Whatever valid chunked encoding `enc` of `body` the client sends (any chunk sizes,
+hex case, extensions, trailers), in whatever segmentation, followed by whatever, with whatever space the pipe offers at each
+parse() call (the consumer may be arbitrarily slow): if the production ended successfully, the octets put into the pipe are exactly
+`body`. Hypothesis: the tree's decoder has no parse checkpoint between chunk extensions (the generated flag; true of the tree, see
+C24 `no_commit_between_extensions`). -/
+theorem chunked_request_body_is_exact (hx : Gen.ChunkedSets.extCommit = false) (relaxed : Bool) (pipeMax : Nat) (evs : List Ev)
+    (body enc extra : Bytes) (henc : Encodes relaxed body enc)
+    (hall : (after .chunked relaxed pipeMax evs).clientAll = enc ++ extra)
+    (ho : (after .chunked relaxed pipeMax evs).endedOk = true) :
+    (after .chunked relaxed pipeMax evs).produced = body := by
+  rcases chunked_production_is_reference hx relaxed pipeMax evs ho with ⟨p, rest, a, b⟩ | ⟨p, rest, a, b, c⟩
+  · exact absurd b (reference_exact relaxed body enc extra p rest henc (by rw [← a]; exact hall)).1
+  · rw [← c]
+    exact (reference_exact relaxed body enc extra p rest henc (by rw [← a]; exact hall)).2 b
+
+/-- … and so a complete upstream message of a chunked request carries exactly the body the client encoded -/
+theorem chunked_request_complete_is_exact (hx : Gen.ChunkedSets.extCommit = false) (relaxed : Bool) (pipeMax : Nat) (evs : List Ev)
+    (body enc extra : Bytes) (henc : Encodes relaxed body enc)
+    (hall : (after .chunked relaxed pipeMax evs).clientAll = enc ++ extra)
+    (hc : (after .chunked relaxed pipeMax evs).upComplete = true) :
+    (after .chunked relaxed pipeMax evs).upBody = body := by
+  obtain ⟨hok, _, hub⟩ := upstream_complete_implies_whole_and_equal_chunked relaxed pipeMax evs hc
+  rw [hub]
+  exact chunked_request_body_is_exact hx relaxed pipeMax evs body enc extra henc hall hok
 
 /-! ## non-vacuity -/
 
